@@ -17,7 +17,7 @@ def scenario_view(p, sc):
     """per-task effective attributes in scenario `sc` (overrides applied)"""
     view = {}
     for fid, t, par, depth in A.flat_tasks(p):
-        ov = (t.get("sc") or {}).get(sc["id"], {})
+        ov = A.effective_override(p, t, sc["id"])
         view[fid] = {"effort": A.effort_hours(ov.get("effort", t.get("effort"))),
                      "start": ov.get("start", t.get("start")), "end": ov.get("end", t.get("end")),
                      "node": t, "parent": par}
